@@ -93,6 +93,9 @@ struct Shared {
     /// number of entries physically in the map (C04 overshoot clause); safe to call
     /// at switch points because no paused thread holds a shard lock there
     probe: Option<Box<dyn Fn() -> usize + Send + Sync>>,
+    /// structural walk of the cache (C08); called at operation boundaries while no
+    /// thread holds the maintenance lock
+    walk: Option<Box<dyn Fn() -> Result<(), String> + Send + Sync>>,
 }
 
 impl Shared {
@@ -171,6 +174,13 @@ impl Shared {
                 let n = p();
                 if n > st.max_map_len {
                     st.max_map_len = n;
+                }
+            }
+        }
+        if s == OP_START && st.lock_owner.is_empty() {
+            if let Some(w) = &self.walk {
+                if let Err(e) = w() {
+                    self.abort(st, "C08", format!("structural walk failed at an operation boundary (step {step}): {e}"));
                 }
             }
         }
@@ -400,6 +410,12 @@ pub fn run_sched_case(case: &SchedCase, prop: &str, trace: bool) -> SchedRun {
             ..St::default()
         }),
         cv: Condvar::new(),
+        walk: if prop == "C08" {
+            let c = cache.clone();
+            Some(Box::new(move || c.verif_walk(false)))
+        } else {
+            None
+        },
         probe: if prop == "C04" {
             let c = cache.clone();
             Some(Box::new(move || c.verif_map_len()))
@@ -803,6 +819,8 @@ fn litmus() -> Vec<(&'static str, SchedCase)> {
         ("sync || update; get (old value at its ttl)", SchedCase { cfg: base(Some(2), Some(SEC)), init: vec![ins(0, 1), ins(1, 1), TOp::Sync], threads: vec![vec![TOp::Sync], vec![TOp::Advance { ns: SEC }, ins(0, 1), get(0)]], preempt: vec![], first: 0 }),
         ("insert; insert || sync; sync (capacity 1)", SchedCase { cfg: base(Some(1), None), init: vec![], threads: vec![vec![ins(0, 1), ins(1, 1), get(1)], vec![TOp::Sync, TOp::Sync]], preempt: vec![], first: 0 }),
         ("update; invalidate || sync || get", SchedCase { cfg: base(Some(2), None), init: vec![ins(0, 1), TOp::Sync], threads: vec![vec![ins(0, 2), TOp::Invalidate { k: 0 }], vec![TOp::Sync], vec![get(0)]], preempt: vec![], first: 0 }),
+        ("invalidate || re-insert; sync; get(c); insert(c, heavy); sync", SchedCase { cfg: base(Some(2), None), init: vec![ins(0, 1), TOp::Sync], threads: vec![vec![TOp::Invalidate { k: 0 }], vec![ins(0, 1), TOp::Sync, get(1), TOp::Sync, ins(1, 2), TOp::Sync, get(1)]], preempt: vec![], first: 0 }),
+        ("invalidate || re-insert; get(c); insert(c, heavy) (no explicit sync)", SchedCase { cfg: base(Some(2), None), init: vec![ins(0, 1), TOp::Sync], threads: vec![vec![TOp::Invalidate { k: 0 }], vec![ins(0, 1), get(1), get(1), ins(1, 2), get(0), get(1)]], preempt: vec![], first: 0 }),
         ("invalidate_all || invalidate_all (clock advancing)", SchedCase { cfg: base(None, None), init: vec![ins(0, 1), TOp::Advance { ns: 1 }], threads: vec![vec![TOp::InvalidateAll], vec![TOp::Advance { ns: 1 }, ins(1, 1), TOp::Advance { ns: 1 }, TOp::InvalidateAll, get(1)]], preempt: vec![], first: 0 }),
     ]
 }
